@@ -935,6 +935,9 @@ package server
 //@   frame-by-effects
 //@   uses u64str.injective, buntdb.update.once, cat.cancel
 //@   entry-assume s.qdb != nil && 0 <= s.qidx && s.qidx < 9223372036854775808
+// details handed to the hook queue are never nil: writeAOF passes its own non-nil d or the children of a parent,
+// and the only builder of children (cmdPDEL, obligation pdel.children-non-nil) appends non-nil details
+//@   entry-assume d != nil
 //@   requires s != nil
 //@   modifies steps, perCall
 //@   set-at-call buntdb.DB.Update#1 qidx0 = s.qidx
@@ -1212,11 +1215,13 @@ package server
 //@   loop 2 invariant col != nil && colInv(col) && col.objs == objs0 && ids == idfilt(pattern, seq2, idx2)
 //@   loop 3 invariant [a] col != nil && colInv(col)
 //@   loop 3 invariant [b] len(children) == idx3
+//@   loop 3 invariant [f] forall(i, 0, len(children), children[i] != nil)
 //@   loop 3 invariant [c] col.objs == delAll(objs0, ids, idx3)
 //@   loop 3 invariant [d] (*s.cols)[key] == col && *s.cols == old(*s.cols)
 //@   loop 3 invariant [e] allint(c, c != col ==> astype(c, "collection.Collection").objs == old(astype(c, "collection.Collection").objs))
 //@   ensures [error-changes-nothing] result2 != nil ==> *s.cols == old(*s.cols) && colsUntouched()
 //@   at-return [pdel.count] result2 == nil && col != nil ==> len(result1.children) == len(pids) && result1.updated == (len(pids) > 0)
+//@   at-return [pdel.children-non-nil] result2 == nil ==> forall(i, 0, len(result1.children), result1.children[i] != nil)
 //@   at-return [pdel.model] result2 == nil && col != nil ==> col.objs == delAll(objs0, pids, len(pids))
 //@   at-return [pdel.others] result2 == nil ==> allint(c, c != col ==> astype(c, "collection.Collection").objs == old(astype(c, "collection.Collection").objs))
 //@   at-return [pdel.keyspace] result2 == nil && col != nil ==> *s.cols == ite(col.objects + col.nobjects == 0, store(old(*s.cols), key, nil), old(*s.cols))
@@ -1239,7 +1244,8 @@ package server
 //@ func Server.getQueueCandidates
 //@   frame-by-effects
 //@   uses rt.search.content, btree.asc.content, btree.ascfrom.nil
-//@   requires s != nil && d != nil && registriesNonNil(s)
+//@   requires s != nil && d != nil
+//@   entry-assume registriesNonNil(s)
 //@   modifies steps, perCall
 //@   loop 1 invariant [out.covered] forall(i, 0, idx1, astype(seq1[i], "server.Hook").Key == d.key ==> indom(candidates, seq1[i]))
 //@   loop 1 invariant [only-key] allint(h, indom(candidates, h) ==> astype(h, "server.Hook").Key == d.key)
